@@ -1312,8 +1312,13 @@ class C18(TraceCheck):
         k = rng.randrange(0, len(plan["body"]) + 1)
         if mode != "end":
             plan["body"].insert(k, {"s": "terminate", "mode": mode, "arg": arg})
+        pre = None
+        if rng.random() < 0.2:
+            # an earlier sys.exit() that the script catches itself (e.g. a --help path), then the run goes on
+            pre = rng.choice(["0", "", "3", "'msg'"])
+            plan["body"].insert(rng.randrange(0, k + 1), {"s": "caught_exit", "arg": pre})
         return {"plan": plan, "mode": mode, "arg": arg, "k": k, "autoprove": rng.random() < 0.8,
-                "stale": rng.random() < 0.3 and backend != "qaptools"}
+                "stale": rng.random() < 0.3 and backend != "qaptools", "pre": pre}
 
     def run(self, case):
         plan = case["plan"]
@@ -1334,6 +1339,8 @@ class C18(TraceCheck):
         terms = [e for e in ev if e["ev"] == "term"]
         mode, arg = case["mode"], case["arg"]
         site = {"mode": mode, "arg": arg, "autoprove": case["autoprove"]}
+        if case.get("pre") is not None:
+            site["pre"] = "caught_exit:" + case["pre"]
         viol = []
 
         def add(oracle, detail, **extra):
@@ -1401,7 +1408,8 @@ class C18(TraceCheck):
     def shrink_candidates(self, case):
         for c in P.shrink_plan_candidates(case):
             # keep exactly the terminator
-            if case["mode"] == "end" or any(s.get("s") == "terminate" for s in c["plan"]["body"]):
+            if (case["mode"] == "end" or any(s.get("s") == "terminate" for s in c["plan"]["body"])) and \
+                    (case.get("pre") is None or any(s.get("s") == "caught_exit" for s in c["plan"]["body"])):
                 yield c
         if case.get("stale"):
             c = copy.deepcopy(case)
@@ -1444,8 +1452,8 @@ def c19_configs():
         for pre in pres:
             for lo in loadables:
                 for ipy in (False, True):
-                    if ipy and (pre or env in DOC_ORDER):
-                        continue   # ipython only matters for auto-detection
+                    if ipy and pre and (lo["libsnark"] or lo["qaptools"] or not lo["flatbuffers"]):
+                        continue   # (keep the space small: notebook x pre-import only with the default loadable set)
                     out.append({"env": env, "pre": pre, "loadable": lo, "ipython": ipy})
     return out
 
@@ -1861,8 +1869,8 @@ class C07(ProverCheck):
     budget = {"quick": 2500, "thorough": 150000}
     components = REAL_TRACE
     toggles = ("div", "bits", "shift", "pow", "boolop", "check", "tobits", "tobool", "assert", "ite_call",
-               "array", "aset")
-    weights = dict(FULL_MIX, guarded=7, ite_call=4, set_ie=0, val=0.3, div=5, tobool=2, tobits=2, assert_=4)
+               "array", "aset", "set_ie")
+    weights = dict(FULL_MIX, guarded=7, ite_call=4, set_ie=0.8, val=0.3, div=5, tobool=2, tobits=2, assert_=4)
     rule = ("guarded regions (decorator form and lazily evaluated if_then_else branches, nesting <= 3, raw 0/1 "
             "and boolean-typed conditions, each level's condition 0 or 1) whose bodies are drawn from every "
             "operator and assertion, on operands that are often invalid for the body (out of range at bitlength "
@@ -1884,6 +1892,9 @@ class C07(ProverCheck):
         cfg = self.cfg(rng)
         w = swarm_weights(rng, self.weights, self.toggles)
         cfg["no_const_zero_divisor"] = True
+        # ignore_errors is toggled at top level only: a toggle inside a region is undone when the region ends
+        # (C08), which the unguarded twin cannot mimic
+        cfg["set_ie_top_only"] = True
         plan = P.generate(rng, cfg, w)
         return {"plan": plan, "seed": rng.randrange(1 << 30)}
 
@@ -2332,6 +2343,10 @@ class C15(ProverCheck):
         for _ in range(rng.randrange(1, 9)):
             ix = [index(d) for d in range(len(dims))]
             chained = two_d and rng.random() < 0.25
+            if two_d and rng.random() < 0.2:
+                # store the row read at a (usually secret) index at another position
+                body.append({"s": "aset", "arr": 0, "ix": [index(0)], "row_from": index(0), "value": {"k": 0}, "try": True})
+                continue
             if rng.random() < 0.5:
                 body.append({"s": "let", "e": {"call": "aget", "arr": 0, "ix": ix, "chained": chained, "t": "I"},
                              "try": True})
